@@ -368,7 +368,7 @@ Theorem C16_end_to_end_rejection : forall c o secs ts workbook v envp,
   cause_config secs \/ cause_options c o secs \/ cause_sheet c o secs ts workbook \/
   cause_lots_exhausted c o secs ts workbook \/ cause_overdraft c o secs ts workbook ->
   fst (rp2_model c o secs ts workbook v envp) <> 0 /\ snd (rp2_model c o secs ts workbook v envp) = [].
-Proof. exact e2e_rejection. Qed.
+Proof. exact E2E_rejection. Qed.
 
 (** ... more generally: whatever makes matching + aggregation ([compute_tax] under the run's period / window / -n / schedule)
     fail for one asset of an accepted workbook; and the overdraft for ANY parsed sheet (crypto-fee acquisitions included) *)
@@ -436,14 +436,18 @@ Theorem C16_sheet_build_succeeds : forall cfg asset counter blocks p,
   wf_blocks cfg asset 1 blocks -> expected cfg counter blocks = Ok p -> pa_ins p <> [] -> no_crypto_fee (sheet_hist cfg blocks) ->
   exists t, build (sheet_hist cfg blocks) = Ok t /\ txs_of_parsed p = Ok t.
 Proof. exact sheet_build_ok. Qed.
+(** ... and the holder indices of the built transactions are indices into the configured holder list *)
+Theorem C16_sheet_holders_ok : forall cfg l t,
+  Z.of_nat (length (pc_holders cfg)) <= 100000 -> build (hist_of_rows cfg l) = Ok t -> holders_ok t.
+Proof. exact sheet_holders_ok. Qed.
 
 (** SUCCESS.  Valid configuration; supported options ([supported]: -m a choice of the country, language shipped, from <= to, no
     -l); -m and [accounting_methods] not both given, schedule entries name existing methods, distinct schedule years; -a (if
     given) a configured asset; every processed asset's sheet the rendering of well-formed tables ([rendered_workbook]) whose typed
     rows construct with at least one acquisition; [sheet_rows_ok] for every sheet -- what REMAINS a hypothesis about the rows:
     no acquisition with a crypto fee (gap, see [sheet_rows_ok]), STAKING amounts positive, one instant one local year (F13), the
-    schedule covers every event year, the lots never run out, and -n or (holder indices < 100000 and no overdraft up to the
-    to-date); [reports_ok_hyps] on the resulting rinput.
+    schedule covers every event year, the lots never run out, and -n or no overdraft up to the to-date; at most 100000
+    configured holders; [reports_ok_hyps] on the resulting rinput.
     Then: exit 0; exactly the configured reports of the country in discovery order, each produced by its generator model on the
     rinput [i] and within sheet capacity; MainRun's control flow exits 0 having written exactly their files; and the
     transactions [i] holds are, asset by asset in sorted order, [txs_of_parsed] of [expected] of the rendered blocks (the cells of
@@ -455,6 +459,7 @@ Theorem C16_end_to_end_success : forall c o secs ts workbook v envp s sheet trai
   Forall (fun e => str_in (snd e) method_plugins = true) (cs_methods s) ->
   NoDup (map fst (cs_methods s)) ->
   (forall a, o_asset o = Some a -> In a (cs_assets s)) ->
+  Z.of_nat (length (cs_holders s)) <= 100000 ->
   rendered_workbook (pcfg_of s ts) workbook sheet trailing (run_assets o s) ->
   (forall a, In a (run_assets o s) -> exists p, expected (pcfg_of s ts) 0 (sheet a) = Ok p /\ pa_ins p <> []) ->
   (forall sched a, e2e_sched c o s = Some sched -> In a (run_assets o s) ->
@@ -473,7 +478,7 @@ Theorem C16_end_to_end_success : forall c o secs ts workbook v envp s sheet trai
                           build (sheet_hist (pcfg_of s ts) (sheet (fst ap))) = Ok (ra_txs ra) /\
                           fractions_of gen_always_repush (rp_sched i) (ra_txs ra) = Ok (ra_fracs ra))
             (rp_assets i) (sort_leb by_name ps).
-Proof. exact e2e_success. Qed.
+Proof. exact E2E_success. Qed.
 
 (** the file-name view of the run is [ConfigModel.front_end] itself with the named reports of the back end *)
 Theorem C16_end_to_end_is_front_end : forall c o secs ts workbook v envp,
@@ -506,7 +511,22 @@ Theorem C16_end_to_end_rejection_nonvacuous :
    exists l, rp2_model US opts_n od_secs ok_ts od_workbook (wv 0) 0 = (0, l) /\ map fst l = discovery US).
 Proof. exact (conj e2e_rejection_nonvacuous (conj e2e_lots_exhausted_nonvacuous e2e_overdraft_nonvacuous)). Qed.
 
+(** ... and an acquisition WITH a crypto fee (the case [C16_end_to_end_success] leaves out; AAA's sheet has the fee cell of
+    Proofs/ParserExample.v, tables in the order OUT, IN): the parser's split gives the artificial fee disposal -1; the seam and the
+    back half compose -- ComputedData exists and [reports_ok_hyps] holds for the assembled rinput (by computation), exit 0 with
+    the three US reports *)
+Theorem C16_end_to_end_crypto_fee_nonvacuous :
+  map (fun ap => (fst ap, map i_row (pa_ins (snd ap)), map o_row (pa_outs (snd ap)), pa_counter (snd ap))) fee_ps =
+    [(s_BBB, [3; 4], [9], 0); (s_AAA, [8], [4; -1], -1)] /\
+  rp2_model US opts0 ok_secs ok_ts fee_workbook (wv 0) 0 = back_end US opts0 (wv 0) 0 ok_s fee_ps /\
+  e2e_input US opts0 0 ok_s fee_ps = Some fee_i /\
+  (exists cs, computed_all fee_i (rp_assets fee_i) = Ok cs) /\ reports_ok_hyps (wv 0) fee_i /\
+  exists l, rp2_model US opts0 ok_secs ok_ts fee_workbook (wv 0) 0 = (0, l) /\ map fst l = discovery US /\
+            (forall g sheets, In (g, sheets) l -> run_gen (wv 0) fee_i g = inl sheets /\ within_capacity g sheets).
+Proof. exact e2e_crypto_fee_nonvacuous. Qed.
+
 Print Assumptions C16_end_to_end_rejection.
+Print Assumptions C16_end_to_end_crypto_fee_nonvacuous.
 Print Assumptions C16_end_to_end_compute_tax_fails.
 Print Assumptions C16_end_to_end_overdrawn_any_sheet.
 Print Assumptions C16_end_to_end_seam.
@@ -515,6 +535,7 @@ Print Assumptions C16_sheet_rows_are_constructor_inputs.
 Print Assumptions C16_sheet_in_rows_increasing.
 Print Assumptions C16_sheet_distinct_row_ids.
 Print Assumptions C16_sheet_build_succeeds.
+Print Assumptions C16_sheet_holders_ok.
 Print Assumptions C16_end_to_end_success.
 Print Assumptions C16_end_to_end_is_front_end.
 Print Assumptions C16_end_to_end_nonvacuous.
